@@ -56,6 +56,13 @@ func gen(r *verifsim.Rng, tier string) (any, hx.Sched) {
 		w.SleepMask = uint32(r.Uint64())
 	}
 	s := hx.SwarmSched(r, focus)
+	if w.Level == "L2" {
+		// the interpreter passes thousands of yield points per operation:
+		// keep preemptions sparse outside the focus files
+		s.MeanGap = verifsim.Pick(r, []int64{30, 100, 300, 1000, 3000})
+		s.FocusWeight = verifsim.Pick(r, []int32{10, 100, 1000})
+		s.MaxSteps = 400000
+	}
 	return w, s
 }
 
